@@ -64,8 +64,38 @@ def events_arg(events):
     return "|".join(out)
 
 
+def canon_op(op):
+    """the model's name for an op: wrappers and alternative spellings of the public API are ONE operation there."""
+    a = op.split(":")
+    if a[0] in ("next", "iter"):
+        return "recv"
+    if a[0] in ("sendbin", "sendbytes"):
+        return "send:2:" + ":".join(a[1:])
+    if a[0] == "sendtext":
+        return "sendt:" + a[1]
+    return op
+
+
+def alias_ops(ops, salt):
+    """rewrite some ops into their alternative public spellings (deterministically from `salt`): recv -> next / iteration,
+    send:2 -> send_binary / send_bytes, sendt -> send_text.  The model line keeps the canonical op (`canon_op`)."""
+    import zlib
+    out = []
+    for i, op in enumerate(ops):
+        h = zlib.crc32(f"{salt}:{i}:{op[:40]}".encode())
+        a = op.split(":")
+        if a[0] == "recv" and h % 3:
+            op = ("next", "iter")[h % 2]
+        elif a[0] == "send" and len(a) >= 3 and a[1] == "2" and h % 3:
+            op = ("sendbin:", "sendbytes:")[h % 2] + ":".join(a[2:])
+        elif a[0] == "sendt" and h % 2:
+            op = "sendtext:" + a[1]
+        out.append(op)
+    return out
+
+
 def line(cfg, events, ops):
-    return f"m-session {cfg_arg(cfg)} {events_arg(events)} {'|'.join(ops) if ops else '-'}"
+    return f"m-session {cfg_arg(cfg)} {events_arg(events)} {'|'.join(canon_op(o) for o in ops) if ops else '-'}"
 
 
 def parse_bytes(s):
@@ -129,8 +159,9 @@ def run_impl(cfg, events, ops, trace=False, payload_type=bytes, keymode="script"
             before = len(sock.sent)
             a = op.split(":")
             try:
-                if a[0] == "recv":
-                    r = ws.recv()
+                if a[0] in ("recv", "next", "iter"):
+                    # the three spellings of "receive the next message" (the model has one)
+                    r = ws.recv() if a[0] == "recv" else (ws.next() if a[0] == "next" else next(iter(ws)))
                     if isinstance(r, str):
                         res = "E" if (r == "" and not _last_was_text(ws)) else "T:" + summarize(r.encode("utf-8"))
                     else:
@@ -147,6 +178,13 @@ def run_impl(cfg, events, ops, trace=False, payload_type=bytes, keymode="script"
                 elif a[0] == "send":
                     p = payload_type(parse_bytes(":".join(a[2:])))
                     res = f"N:{ws.send(p, int(a[1]))}"
+                elif a[0] in ("sendbin", "sendbytes"):
+                    # send_binary(payload) / send_bytes(data): the documented wrappers of send(…, OPCODE_BINARY)
+                    p = payload_type(parse_bytes(":".join(a[1:])))
+                    res = f"N:{ws.send_binary(p) if a[0] == 'sendbin' else ws.send_bytes(p)}"
+                elif a[0] == "sendtext":
+                    text = "".join(chr(int(x)) for x in a[1].split(".")) if a[1] != "-" else ""
+                    res = f"N:{ws.send_text(text)}"
                 elif a[0] == "sendf":
                     p = payload_type(parse_bytes(":".join(a[3:])))
                     fr = websocket.ABNF.create_frame(p, int(a[2]), int(a[1]))
